@@ -8,6 +8,7 @@ import (
 	"time"
 
 	"github.com/karagenc/socket.io-go/internal/sync"
+	"github.com/karagenc/socket.io-go/internal/verifhook"
 
 	eio "github.com/karagenc/socket.io-go/engine.io"
 	eioparser "github.com/karagenc/socket.io-go/engine.io/parser"
@@ -158,6 +159,7 @@ func (c *serverConn) connect(header *parser.PacketHeader, decode parser.Decode) 
 		}
 		return
 	}
+	verifhook.Hit("serverConn.connect:after-nsp-add")
 
 	c.sockets.set(socket)
 	c.nsps.set(nsp)
